@@ -330,12 +330,14 @@ def parseDefects (flags : List String) : Defects :=
     indexNotMaintainedOnKeyUpdate := flags.contains "indexNotMaintainedOnKeyUpdate",
     indexOneEntryPerKey := flags.contains "indexOneEntryPerKey",
     uniqueNotRecheckedAtCommit := flags.contains "uniqueNotRecheckedAtCommit",
-    commitChecksInsertedKeysOnly := flags.contains "commitChecksInsertedKeysOnly" }
+    commitChecksInsertedKeysOnly := flags.contains "commitChecksInsertedKeysOnly",
+    createRefusedWhileNameHeld := flags.contains "createRefusedWhileNameHeld" }
 
 def defectNames : List String :=
   ["updateKeepsInserterXmin", "writeSetNeverRecorded", "xmaxNoneSeesAll", "ownDeleteWalksDeltas",
    "deleteKeepsStaleXmax", "deleteMarkSingleSlot", "stmtNotAtomicInSession",
-   "indexNotMaintainedOnKeyUpdate", "indexOneEntryPerKey", "uniqueNotRecheckedAtCommit", "commitChecksInsertedKeysOnly"]
+   "indexNotMaintainedOnKeyUpdate", "indexOneEntryPerKey", "uniqueNotRecheckedAtCommit", "commitChecksInsertedKeysOnly",
+   "createRefusedWhileNameHeld"]
 
 def runLine (flags : List String) (line : String) : String :=
   match parseCase line with
